@@ -6,6 +6,7 @@ import Gts.Lemmas.Delete
 import Gts.Model.Seq
 import Gts.Model.GbSlice
 import Gts.Lemmas.Bounds
+import Gts.Lemmas.Window
 namespace Gts.C03
 open Gts Loc
 
@@ -101,6 +102,16 @@ coordinates). -/
 theorem expand_del_inside (L i k : Int) (hi : 0 ≤ i) (hk : 0 < k) (hL : i + k ≤ L) (l : Loc)
     (h : coordsAll (inB 0 L) l = true) : coordsAll (inB 0 (L - k)) (expand l i (-k)) = true :=
   expand_del_coords L i k hi hk hL l h
+
+/-- **Slice, every location kind**: on a forward window `[a, b)` of a sequence of length `L` the
+re-located feature (`Expand(b, b-L)` then `Expand(0, -a)`, see `slice_feats_fwd`) denotes exactly
+its former residues inside the window, re-based to the window start, in the same order and on
+the same strand — provided K2 does not fire in either step. -/
+theorem slice_den_partial (l : Loc) (a b L : Int) (h0 : 0 ≤ a) (hab : a ≤ b) (hbL : b ≤ L)
+    (hw : wf l = true) (hpos : ∀ p ∈ den l, 0 ≤ p.1 ∧ p.1 < L)
+    (g1 : expandAbs l b (b - L) = false) (g2 : expandAbs (l.expand b (b - L)) 0 (-a) = false) :
+    den ((l.expand b (b - L)).expand 0 (-a)) ≼ filterMapPos (winMap a b) (den l) :=
+  (sliceLoc_den l a b L h0 hab hbL hw hpos g1 g2).1
 
 /-- well-formedness is preserved -/
 theorem expand_del_wf (l : Loc) (i k : Int) (hw : wf l = true) (hk : 0 < k) :
